@@ -37,7 +37,12 @@ def cfgOK : Bool :=
   Chartparse.Gen.classes.all (fun c => c.2.2.2.2.2.isEmpty || (c.2.2.2.1 && c.2.2.2.2.1 == 0)) &&
   Chartparse.Gen.classes.all (fun c =>
     -- eq mode 0 (dataclass field-wise) implies frozen (hash/eq consistency), for the event/track/data classes
-    !(c.2.2.2.2.1 == 0 && c.2.1 == 2) || c.2.2.2.1)
+    !(c.2.2.2.2.1 == 0 && c.2.1 == 2) || c.2.2.2.1) &&
+  Chartparse.Gen.classes.all (fun c =>
+    -- … and is decorated *itself*: the `__setattr__` a frozen dataclass generates refuses every name only on instances of exactly
+    -- the decorated class; a plain subclass of a frozen dataclass accepts assignment of anything that is not a declared field
+    -- (found on the shipped StarPowerEvent / TextEvent / SectionEvent / LyricEvent, repaired by a `fix:` commit)
+    !(c.2.2.2.1 && c.2.1 == 2) || c.2.2.1)
 
 /-- obligation on the regenerated inventory of /repo's working tree -/
 theorem gen_cfg_ok : cfgOK = true := by decide
@@ -50,7 +55,7 @@ theorem C19_partial (c : Chart) (ops : List Op) :
     have := gen_cfg_ok
     unfold cfgOK at this
     simp only [Bool.and_eq_true, Bool.not_eq_true'] at this
-    exact this.1.1
+    exact this.1.1.1
   rw [h]; exact run_observe c ops
 
 /-- the originally shipped behaviour (auto-inserting map) violates the property: one look-up of an absent
@@ -59,6 +64,11 @@ theorem autoviv_counterexample_getitem :
     observe (run true ⟨[(0, [3])], []⟩ [.getItem 2]) ≠ observe ⟨[(0, [3])], []⟩ := by decide
 theorem autoviv_counterexample_nps :
     observe (run true ⟨[(0, [3])], []⟩ [.nps 5 0]) ≠ observe ⟨[(0, [3])], []⟩ := by decide
+
+/-- the second sentence of C19 on the regenerated inventory: every frozen event / track / parsed-data class is a dataclass in its own
+    right, so its generated `__setattr__` / `__delattr__` refuse every attribute name -/
+theorem frozen_classes_are_decorated :
+    Chartparse.Gen.classes.all (fun c => !(c.2.2.2.1 && c.2.1 == 2) || c.2.2.1) = true := by decide
 
 /-- non-vacuity: a chart with two instruments under a mixed op sequence -/
 example : observe (run false ⟨[(0, [3, 2]), (5, [0])], []⟩ [.getItem 7, .nps 0 1, .derived 4 9, .pure, .nps 9 9]) =
